@@ -110,7 +110,6 @@ def load_common(self, g, n, from_storage, to_storage):
 def sm_init(self, g):
     g.N = nondet_int()
     assume(g.N >= 1)
-    assume(g.N <= MAXSIZE)       # A.2: the forward is shorter than sys.maxsize steps
     g.known = False
     init_common(self, g)
 
@@ -120,8 +119,10 @@ def sm_forward(self, g, n0, n1, write_ics, write_adj_deps, storage):
     assert g.phase == 0, "C02:forward_sweep_only_before_EndForward"
     assert storage == StorageType.WORK, "C03:nothing_outside_work"
     assert write_adj_deps and not write_ics, "C01:all_adjoint_dependencies_kept"
+    # this schedule keeps the dependencies of all steps in WORK (the C12 exemption): every
+    # Forward extends the kept interval [0, whi)
+    assert n0 == g.whi, "C01:all_adjoint_dependencies_kept"
     online_advance(self, g, n0, n1)
-    g.wlo = n0
     g.whi = g.fwd
     counters(self, g)
     assert not self.is_exhausted, "C09:is_exhausted_false_while_actions_remain"
@@ -167,6 +168,7 @@ def sd_forward(self, g, n0, n1, write_ics, write_adj_deps, storage):
     assert write_adj_deps and not write_ics, "C01:all_adjoint_dependencies_kept"
     assert n1 == n0 + 1, "C01:one_step_per_disk_checkpoint"
     assert n0 == g.dhi, "C01:no_overwrite"
+    assert self.uses_storage_type(storage), "C11:uses_storage_type_true_for_every_storage_touched"
     online_advance(self, g, n0, n1)
     g.dhi = g.fwd
     counters(self, g)
@@ -183,6 +185,7 @@ def sd_end_forward(self, g):
 def sd_copy(self, g, n, from_storage, to_storage):
     load_common(self, g, n, from_storage, to_storage)
     assert not self._move_data, "C09:copy_only_when_repeats_are_permitted"
+    assert self.uses_storage_type(from_storage), "C11:uses_storage_type_true_for_every_storage_touched"
     assert from_storage == StorageType.DISK and to_storage == StorageType.WORK, "C03:nothing_outside_disk"
     assert 0 <= n and n < g.dhi, "C01:checkpoint_present"
     g.fwd_def = False
@@ -195,6 +198,7 @@ def sd_copy(self, g, n, from_storage, to_storage):
 def sd_move(self, g, n, from_storage, to_storage):
     load_common(self, g, n, from_storage, to_storage)
     assert self._move_data, "C09:move_only_for_single_pass"
+    assert self.uses_storage_type(from_storage), "C11:uses_storage_type_true_for_every_storage_touched"
     assert from_storage == StorageType.DISK and to_storage == StorageType.WORK, "C03:nothing_outside_disk"
     assert 0 <= n and n < g.dhi, "C01:checkpoint_present"
     assert n == g.dhi - 1, "C04:moves_remove_the_top_checkpoint"
@@ -224,7 +228,7 @@ def sd_end_reverse(self, g):
         g.done = True
         assert self.is_exhausted, "C09:is_exhausted_true_once_final_action_emitted"
     else:
-        assert g.dhi == g.N, "C04:storage_at_EndReverse_equals_storage_at_EndForward"
+        assert g.dhi == g.N, "C04,C09:storage_at_EndReverse_equals_storage_at_EndForward"
         g.adj = 0
         assert self._r == 0, "C08:r_reset_at_EndReverse_iff_more_passes"
         assert not self.is_exhausted, "C09:is_exhausted_false_while_actions_remain"
@@ -238,7 +242,6 @@ def sd_stop(self, g):
 def nn_init(self, g):
     g.N = nondet_int()
     assume(g.N >= 1)
-    assume(g.N <= MAXSIZE)
     g.known = False
     init_common(self, g)
 
@@ -286,6 +289,7 @@ def stack_write(self, g, n0, n1, write_ics, write_adj_deps, storage):
     assert write_ics and not write_adj_deps, "C03:restart_checkpoints_only"
     assert k < len(self._storage), "C03:unit_available"
     assert storage == self._storage[k], "C14:stack_position_keeps_one_storage"
+    assert self.uses_storage_type(storage), "C11:uses_storage_type_true_for_every_storage_touched"
     assert forall(0, k, lambda i: g.cs[i] != n0), "C01:no_overwrite"
     g.cs.append(n0)
     g.cov.append(n1)
@@ -338,6 +342,7 @@ def stack_load(self, g, n, from_storage, to_storage):
     assert k >= 1 and g.cs[k - 1] == n and self._storage[k - 1] == from_storage, \
         "C01:checkpoint_present_on_top_of_stack"
     assert g.cov[k - 1] >= g.N - g.adj, "C01:restart_checkpoint_covers_steps_to_recompute"
+    assert self.uses_storage_type(from_storage), "C11:uses_storage_type_true_for_every_storage_touched"
     g.fwd_def = True
     g.fwd = n
     g.work_ics = True
@@ -398,6 +403,7 @@ def tl_forward(self, g, n0, n1, write_ics, write_adj_deps, storage):
         assert storage == StorageType.DISK and write_ics and not write_adj_deps, \
             "C13:forward_phase_is_periodic_disk_checkpointing"
         assert n0 == g.pend and n1 == n0 + self._period, "C13:forward_phase_is_periodic_disk_checkpointing"
+        assert self.uses_storage_type(storage), "C11:uses_storage_type_true_for_every_storage_touched"
         online_advance(self, g, n0, n1)
         g.pend = n1
         g.wlo = 0
@@ -411,6 +417,7 @@ def tl_forward(self, g, n0, n1, write_ics, write_adj_deps, storage):
         else:
             k = len(g.cs)
             assert storage == self._binomial_storage, "C13:extra_checkpoints_only_in_binomial_storage"
+            assert self.uses_storage_type(storage), "C11:uses_storage_type_true_for_every_storage_touched"
             assert write_ics and not write_adj_deps, "C03:restart_checkpoints_only"
             assert k < self._binomial_snapshots, "C03:binomial_budget"
             assert forall(0, k, lambda i: g.cs[i] != n0), "C01:no_overwrite"
@@ -440,6 +447,7 @@ def tl_reverse(self, g, n1, n0, clear_adj_deps):
 def tl_load(self, g, n, from_storage, to_storage, is_move):
     load_common(self, g, n, from_storage, to_storage)
     assert to_storage == StorageType.WORK, "C18:loads_go_to_work"
+    assert self.uses_storage_type(from_storage), "C11:uses_storage_type_true_for_every_storage_touched"
     k = len(g.cs)
     if k >= 1 and g.cs[k - 1] == n:
         # the top of the binomial stack
@@ -453,7 +461,7 @@ def tl_load(self, g, n, from_storage, to_storage, is_move):
         assert from_storage == StorageType.DISK and n % self._period == 0 and 0 <= n and n < g.pend, \
             "C01:checkpoint_present"
         assert n + self._period >= g.N - g.adj, "C01:restart_checkpoint_covers_steps_to_recompute"
-        assert not is_move, "C04:periodic_checkpoints_are_kept_for_further_passes"
+        assert not is_move, "C04,C09:periodic_checkpoints_are_kept_for_further_passes"
     g.fwd_def = True
     g.fwd = n
     g.work_ics = True
@@ -474,7 +482,7 @@ def tl_end_reverse(self, g):
     assert g.adj == g.N, "C02:EndReverse_when_step0_reversed"
     g.passes = g.passes + 1
     # unlimited passes: the periodic set is untouched and the binomial stack is empty again (C04)
-    assert len(g.cs) == 0, "C04:storage_at_EndReverse_equals_storage_at_EndForward"
+    assert len(g.cs) == 0, "C04,C09:storage_at_EndReverse_equals_storage_at_EndForward"
     g.adj = 0
     assert self._r == 0, "C08:r_reset_at_EndReverse_iff_more_passes"
     assert not self.is_exhausted, "C09:is_exhausted_false_while_actions_remain"
@@ -501,6 +509,7 @@ def mx_forward(self, g, n0, n1, write_ics, write_adj_deps, storage):
     else:
         k = len(g.cs)
         assert storage == self._storage, "C03:only_the_chosen_storage"
+        assert self.uses_storage_type(storage), "C11:uses_storage_type_true_for_every_storage_touched"
         assert k < self._snapshots, "C03:unit_available"
         assert forall(0, k, lambda i: g.cs[i] != n0), "C01:no_overwrite"
         if write_adj_deps:
@@ -535,6 +544,7 @@ def mx_load(self, g, n, from_storage, to_storage, is_move):
     assert to_storage == StorageType.WORK, "C18:loads_go_to_work"
     k = len(g.cs)
     assert from_storage == self._storage, "C03:only_the_chosen_storage"
+    assert self.uses_storage_type(from_storage), "C11:uses_storage_type_true_for_every_storage_touched"
     assert k >= 1 and g.cs[k - 1] == n, "C01:checkpoint_present_on_top_of_stack"
     if g.ck[k - 1] == 4:
         assert g.cov[k - 1] >= g.N - g.adj, "C01:restart_checkpoint_covers_steps_to_recompute"
